@@ -17,6 +17,13 @@ the standard texts, never copied from the repository; E7 non-interference):
       Bessel psi = z j, xi = z h2, psi' = z j' + j); pi/tau upward recurrence
       (B&H 4.47) from pi_0 = 0, pi_1 = 1; S_perp = sum (2l+1)/(l(l+1)) (b tau +
       a pi), S_par with a <-> b; B&H 4.88 in miescatlib.scatcoeffs.
+  H5  tolerance hand-off: where a function forwards two of its own defaulted
+      numeric parameters to a callee, they are not crossed (judged by the
+      default constants on both sides: 1e-3 never lands in the slot whose
+      default is 1e-16); at the f2py boundary, where the callee has no Python
+      signature, all call sites of one routine agree on which default constant
+      travels in which slot (confirmed against the Fortran dummy arguments of
+      lentz_dn1(z, n, eps1, eps2));
 Not decided: agreement of the compiled solvers, accuracy / truncation,
 degenerate multi-layer cases.
 """
@@ -71,6 +78,7 @@ def run(check, prog):
     smatrix(check, prog, canon)
     bh488(check, prog, canon)
     yang(check, prog, canon)
+    tolerance_slots(check, prog)
     # "at every detector point and polarization": the lens theories place the
     # Mie series relative to the polarisation direction (rule shared with C05)
     from . import c05
@@ -584,3 +592,146 @@ def yang(check, prog, canon):
     okx = c0.equal(px[0][2][0], intern(('call', ('attr', xa, 'max'), (), ())))
     check.require(okx, 'H3-seam', 'scatcoeffs_multi outer argument',
                   'psi, xi evaluated at the outermost size parameter', loc)
+
+
+# ----------------------------------------------------------------------
+def _num_default(node):
+    if isinstance(node, ast.Constant) and isinstance(node.value, (int, float)) and \
+            not isinstance(node.value, bool):
+        return float(node.value)
+    if isinstance(node, ast.UnaryOp) and isinstance(node.op, ast.USub):
+        v = _num_default(node.operand)
+        return None if v is None else -v
+    return None
+
+
+def _defaults_of(fd):
+    a = fd.args
+    names = [x.arg for x in a.posonlyargs + a.args]
+    out = {}
+    for n, d in zip(names[len(names) - len(a.defaults):], a.defaults):
+        v = _num_default(d)
+        if v is not None:
+            out[n] = v
+    for k, d in zip(a.kwonlyargs, a.kw_defaults):
+        v = _num_default(d) if d is not None else None
+        if v is not None:
+            out[k.arg] = v
+    return names, out
+
+
+F2PY = {'lentz_dn1', 'dn_1_down', 'asm_mie_far', 'mie_fields', 'tmatrix_fields',
+        'amncalc', 'asm', 'ampld', 'calc_scat_field', 'fieldstocart',
+        'mie_internal_coeffs', 'log_der_1'}
+
+
+def tolerance_slots(check, prog):
+    crossed = []
+    sites = {}          # f2py routine -> [(slot tuple of constants, where)]
+    nforward = 0
+    for m in prog.modules.values():
+        if not m.name.startswith('holopy.scattering.theory'):
+            continue
+        for fn in ast.walk(m.tree):
+            if not isinstance(fn, ast.FunctionDef):
+                continue
+            names, dflt = _defaults_of(fn)
+            # a class may keep the tolerance as an attribute set from a defaulted
+            # __init__ parameter: self.eps1 -> default of eps1
+            attr_dflt = {}
+            if names and names[0] == 'self':
+                cls = [c for c in ast.walk(m.tree) if isinstance(c, ast.ClassDef) and
+                       fn in c.body]
+                for c in cls:
+                    for i in c.body:
+                        if isinstance(i, ast.FunctionDef) and i.name == '__init__':
+                            _, d0 = _defaults_of(i)
+                            for st in ast.walk(i):
+                                if isinstance(st, ast.Assign) and len(st.targets) == 1 \
+                                        and isinstance(st.targets[0], ast.Attribute) and \
+                                        isinstance(st.targets[0].value, ast.Name) and \
+                                        st.targets[0].value.id == 'self' and \
+                                        isinstance(st.value, ast.Name) and \
+                                        st.value.id in d0:
+                                    attr_dflt[st.targets[0].attr] = d0[st.value.id]
+
+            def const_of(a):
+                if isinstance(a, ast.Name) and a.id in dflt:
+                    return dflt[a.id]
+                if isinstance(a, ast.Attribute) and isinstance(a.value, ast.Name) and \
+                        a.value.id == 'self' and a.attr in attr_dflt:
+                    return attr_dflt[a.attr]
+                return None
+            for call in ast.walk(fn):
+                if not isinstance(call, ast.Call):
+                    continue
+                cname = call.func.attr if isinstance(call.func, ast.Attribute) else (
+                    call.func.id if isinstance(call.func, ast.Name) else None)
+                if cname is None:
+                    continue
+                actual = [const_of(a) for a in call.args]
+                where = '%s:%d %s()' % (m.relpath, call.lineno, fn.name)
+                if cname in F2PY:
+                    if sum(1 for x in actual if x is not None) >= 1:
+                        sites.setdefault(cname, []).append((tuple(actual), where, m, call))
+                    continue
+                # package callee with a Python signature
+                tgt = None
+                if isinstance(call.func, ast.Name):
+                    r = prog.resolve_name(m.name, call.func.id)
+                    if r and r[0] == 'func':
+                        tgt = prog.func(r[1])
+                elif isinstance(call.func, ast.Attribute):
+                    try:
+                        r = prog.resolve_expr(m.name, call.func)
+                    except Exception:
+                        r = None
+                    if r and r[0] == 'func':
+                        tgt = prog.func(r[1])
+                if tgt is None:
+                    continue
+                fnames, fd_ = _defaults_of(tgt)
+                bound = {}
+                for i, a in enumerate(call.args):
+                    if i < len(fnames) and actual[i] is not None and fnames[i] in fd_:
+                        bound[fnames[i]] = actual[i]
+                for k in call.keywords:
+                    v = const_of(k.value)
+                    if k.arg in fd_ and v is not None:
+                        bound[k.arg] = v
+                if len(bound) >= 2:
+                    nforward += 1
+                    wrong = {f: v for f, v in bound.items() if fd_[f] != v}
+                    for f, v in wrong.items():
+                        for g, w in wrong.items():
+                            if f < g and v == fd_[g] and w == fd_[f] and v != w:
+                                crossed.append((where, cname, f, g))
+    check.floor('defaulted parameters forwarded pairwise', nforward, 3)
+    check.require(not crossed, 'H5-tolerances-not-crossed', 'internal hand-offs',
+                  '%d calls forward two or more defaulted numeric parameters, none '
+                  'crossed' % nforward, 'holopy/scattering/theory',
+                  fail_detail='; '.join('%s passes its %s/%s defaults crossed to %s' % (
+                      w, f, g, c) for w, c, f, g in crossed[:3]))
+    nsite = 0
+    for cname, lst in sorted(sites.items()):
+        nsite += len(lst)
+        width = max(len(a) for a, _, _, _ in lst)
+        for k in range(width):
+            vals = [(a[k], w, m, c) for a, w, m, c in lst if k < len(a) and a[k] is not None]
+            if len(vals) < 2:
+                continue
+            counts = {}
+            for v, w, m, c in vals:
+                counts[v] = counts.get(v, 0) + 1
+            major = max(counts, key=lambda x: counts[x])
+            bad = [(v, w, m, c) for v, w, m, c in vals if v != major]
+            check.require(not bad, 'H5-f2py-slot-agreement', '%s argument %d' % (cname, k + 1),
+                          'every call site hands over the parameter whose default is %g '
+                          '(%d sites)' % (major, len(vals)),
+                          bad[0][1] if bad else lst[0][1],
+                          fail_detail='%s passes the parameter whose default is %g where '
+                          'the other %d call sites pass the one whose default is %g: the '
+                          'two tolerances of the continued fraction are swapped' % (
+                              bad[0][1] if bad else '', bad[0][0] if bad else 0,
+                              counts[major], major))
+    check.floor('f2py call sites carrying defaulted tolerances', nsite, 5)
